@@ -73,12 +73,12 @@ Proof.
     apply Z.leb_le in A. apply Z.ltb_lt in B. lia.
   - destruct md; intro H.
     + discriminate.
-    + inversion H. unfold Qclip. lia.
-    + inversion H. apply Z.mod_pos_bound. lia.
-    + inversion H. pose proof (Z.mod_pos_bound j (2 * k)) as M.
+    + injection H as <-. unfold Qclip. lia.
+    + injection H as <-. apply Z.mod_pos_bound. lia.
+    + injection H as <-. pose proof (Z.mod_pos_bound j (2 * k) ltac:(lia)) as M.
       destruct (j mod (2 * k) <? k)%Z eqn:L; [apply Z.ltb_lt in L | apply Z.ltb_ge in L]; lia.
-    + destruct (k =? 1)%Z eqn:K1; [inversion H; lia|]. apply Z.eqb_neq in K1.
-      inversion H. pose proof (Z.mod_pos_bound j (2 * k - 2)) as M.
+    + destruct (k =? 1)%Z eqn:K1; [injection H as <-; lia|]. apply Z.eqb_neq in K1.
+      injection H as <-. pose proof (Z.mod_pos_bound j (2 * k - 2) ltac:(lia)) as M.
       destruct (j mod (2 * k - 2) <? k)%Z eqn:L; [apply Z.ltb_lt in L | apply Z.ltb_ge in L]; lia.
 Qed.
 
